@@ -178,7 +178,7 @@ def run_e1_unit(prop, unit, tier, out, known, workdir, tus):
             h = hashlib.md5((uname + desc + str(r['choices'])).encode()).hexdigest()[:10]
             rpath = os.path.join(rdir, '%s_%s.json' % (uname, h))
             rep = {'property': prop, 'engine': 'e1', 'tu': unit['tu'], 'defines': list(unit.get('defines', ())), 'entry': entry,
-                   'unit': uname, 'choices': r['choices'], 'nondet': nd, 'assertion': desc, 'cbmc_property': pid}
+                   'unit': uname, 'choices': r['choices'], 'nondet': nd, 'assertion': desc, 'cbmc_property': pid, 'replay_on': unit.get('replay_on', 'native')}
             ok, how = replay_e1(rep, tu)
             rep['replay_outcome'] = how
             json.dump(rep, open(rpath, 'w'), indent=1)
@@ -199,6 +199,15 @@ def replay_e1(rep, tu=None, workdir=None):
         tu.build()
     rf = os.path.join(tu.work, 'replay_in.txt')
     e1.TU.write_replay(rf, rep['choices'], rep['nondet'])
+    if rep.get('replay_on') == 'translation':
+        # units that rely on a hook of the runtime model that has no counterpart in the g++ build (pre-park hook): the counterexample is confirmed on the
+        # natively executed translation of the real code (gcc build of the generated C with the same runtime model)
+        exe = tu.build_translated_native()
+        rc, so, se = tu.run_native(exe, rep['entry'], rf, timeout=20)
+        if rc == 42:
+            m = re.search(r'VF_ASSERT_FAILED: (.*)', se)
+            return True, 'natively executed translation of the real code fails: ' + (m.group(1) if m else '?')
+        return False, 'native execution of the translation: exit code %d %s' % (rc, se[-200:])
     if 'lock discipline' in rep.get('assertion', ''):
         # the obligation is attached to every memory access by the translator: it is confirmed on the natively executed translation
         # of the real code (gcc build of the generated C with the same runtime model), which checks it by address range
